@@ -7,6 +7,7 @@ import (
 	"bytes"
 	"context"
 	"fmt"
+	"github.com/ipfs/go-datastore"
 	"io"
 	"math"
 	"time"
@@ -133,7 +134,7 @@ func runC16(o *out, r *rng, thorough bool, replay string) {
 	ctx, _ = clock.WithMockClock(ctx)
 
 	// ---------- server ----------
-	stores := 3
+	stores := 5
 	if thorough {
 		stores = 12
 	}
@@ -155,6 +156,15 @@ func runC16(o *out, r *rng, thorough bool, replay string) {
 		}
 		net := newCxNet(ctx, sfirst, initial, all)
 		pending := sfirst + uint64(n)
+		orphan := false
+		if si%2 == 0 {
+			// the state a Put leaves behind when it is interrupted after the certificate write and before the latest pointer
+			// moves (C10): the certificate of the PENDING instance is in the datastore, the store does not know it yet.
+			// The server must keep serving strictly below the pending instance it advertises.
+			oc := g.makeCert()
+			must(cxLastDS.Put(ctx, datastore.NewKey(fmt.Sprintf("/certstore/certs/%016X", oc.GPBFTInstance)), certBytes(oc)))
+			orphan = true
+		}
 		firsts := []uint64{0, sfirst, sfirst + 1, pending - 2, pending - 1, pending, pending + 1, math.MaxUint64, math.MaxUint64 - 1, math.MaxUint64 - 255}
 		if sfirst > 0 {
 			firsts = append(firsts, sfirst-1)
@@ -176,7 +186,7 @@ func runC16(o *out, r *rng, thorough bool, replay string) {
 			wantPT := r.chance(30)
 			req := &certexchange.Request{FirstInstance: first, Limit: limit, IncludePowerTable: wantPT}
 			hdr, got, err := rawFetch(ctx, net.client, net.srvHost.ID(), req)
-			in := map[string]any{"store_first": sfirst, "pending": pending, "first": first, "limit": limit, "power_table": wantPT}
+			in := map[string]any{"store_first": sfirst, "pending": pending, "first": first, "limit": limit, "power_table": wantPT, "orphan_certificate_at_pending": orphan}
 			if err != nil {
 				// requesting a power table below the store's first instance is an internal error of the server (stream reset)
 				if wantPT && first < sfirst {
@@ -230,7 +240,7 @@ func runC16(o *out, r *rng, thorough bool, replay string) {
 	}
 
 	// ---------- client + poller against a scripted responder ----------
-	rounds := 60
+	rounds := 120
 	if thorough {
 		rounds = 600
 	}
